@@ -73,6 +73,8 @@ func checkC16(c *Check) {
 	c.Rule("R3", "reply converters: the default code pair is coherent on both edges of the temporariness predicate (4xx/4 when temporary, 5xx/5 otherwise), and the queue converter uses the predicate that drives retry", 2)
 	c16Converters(c)
 
+	c16LimitErrorsKeepIdentity(c, "R4b")
+	c16StatusAsStored(c, "R7")
 	c.Rule("R3c", "tryDelivery: the status kept for the report and the retry decision come from the same error: every path to the temporariness classification of an attempt's error has stored that error's conversion as the recipient's status (a status left over from an earlier attempt can have the other class)", 1)
 	c16StatusFromThisAttempt(c)
 
